@@ -656,8 +656,11 @@ static void pool_containers(const char* what, std::size_t node_size, Rng& g, lon
             unsigned k = unsigned(g.below(100)), v = unsigned(g.below(200));
             if (k < 20)
             {
-                lst.push_back(T(v));
-                tl.push_back(T(v));
+                if (tl.size() < 300)
+                {
+                    lst.push_back(T(v));
+                    tl.push_back(T(v));
+                }
             }
             else if (k < 35)
             {
@@ -700,8 +703,9 @@ static void pool_containers(const char* what, std::size_t node_size, Rng& g, lon
                 tv.clear();
             }
             else if (k < 96)
-            {
-                us.rehash(us.bucket_count() * 2 + 1);
+            { // (bounded: every rehash doubles the bucket array, which is an array allocation of the pool)
+                if (us.bucket_count() < 600)
+                    us.rehash(us.bucket_count() * 2 + 1);
             }
             else
             {
